@@ -96,7 +96,7 @@ func (j *joiner) ReadAt(buffer []byte, off int64) (read int, err error) {
 		return 0, io.EOF
 	}
 
-	readLen := int64(cap(buffer))
+	readLen := int64(len(buffer))
 	if readLen > j.span-off {
 		readLen = j.span - off
 	}
